@@ -52,6 +52,7 @@ type Op struct {
 	Dt   int    `json:"dt,omitempty"`
 	Perm uint64 `json:"perm,omitempty"`
 	Sim    uint64 `json:"sim,omitempty"`    // bit i set: tx i of the block is first simulated (gas estimation) on the node; the result is discarded
+	Crash  bool   `json:"crash,omitempty"`  // the node crashes after executing this block and before committing it; the block is executed again after the restart
 	Inject string `json:"inject,omitempty"` // mode B: "<call index>:<1 before|2 after>" failing one downstream call in this block
 	// admin (orbiter, FTF, CCTP, warp) and impostor
 	Msg    string   `json:"msg,omitempty"`
